@@ -155,3 +155,15 @@ package util
 //@   loop 1 invariant forall(j, 0, k, !netContains(netid(reservedNetworks[j]), ipval(ip)))
 //@   requires forall(j, 0, len(reservedNetworks), reservedNetworks[j] != nil)
 //@   ensures result == (!gu(ipval(ip)) || exists(j, 0, len(reservedNetworks), netContains(netid(reservedNetworks[j]), ipval(ip))))
+
+//@ func IntersectsIANAReserved [C19]
+//@   pure
+//@   nopanic
+//@   requires forall(j, 0, len(reservedNetworks), reservedNetworks[j] != nil)
+//@   loop 1 invariant forall(j, 0, k, !netContains(netid(reservedNetworks[j]), ipval(net.IP)) &&
+//@                                    !netContains(netOfVal(net), ipval(reservedNetworks[j].IP)))
+//@   ensures result == (!gu(ipval(net.IP)) ||
+//@                      exists(j, 0, len(reservedNetworks), netContains(netid(reservedNetworks[j]), ipval(net.IP)) ||
+//@                                                          netContains(netOfVal(net), ipval(reservedNetworks[j].IP))))
+
+//@ spec rnNonNil() bool = forall(j, 0, len(reservedNetworks), reservedNetworks[j] != nil)
